@@ -258,7 +258,16 @@ func (g *PG) stmt(depth int) {
 		case 4:
 			n := g.fresh("s")
 			g.f("slice")
-			g.w("%s := []int{%s, %s, %s}\n_ = %s\n", n, g.intExpr(1), g.intExpr(1), g.intExpr(1), n)
+			switch r.Intn(4) {
+			case 0: // elements given with their indices, in any order, with a gap
+				g.f("slice-indexed-literal")
+				g.w("%s := []int{2: %s, 0: %s}\n_ = %s\n", n, g.intExpr(1), g.intExpr(1), n)
+			case 1:
+				g.f("slice-indexed-literal")
+				g.w("%s := []int{0: %s, 1: %s, 2: %s, 4: 9}\n_ = %s\n", n, g.intExpr(1), g.intExpr(1), g.intExpr(1), n)
+			default:
+				g.w("%s := []int{%s, %s, %s}\n_ = %s\n", n, g.intExpr(1), g.intExpr(1), g.intExpr(1), n)
+			}
 			g.declare(n, "[]int")
 		case 5:
 			n := g.fresh("m")
